@@ -35,6 +35,8 @@ type pcase struct {
 	X     []int64         `json:"x"`
 	Y     []int64         `json:"y"`
 	A     int64           `json:"a"`
+	AI    int64           `json:"ai"`
+	SI    int64           `json:"si"`
 	K     int64           `json:"k"`
 	W     []int64         `json:"w"`
 	S     int64           `json:"s"`
@@ -492,6 +494,9 @@ func replay(in *core.Lines, args []string, seed int64, sum *core.Summary) error 
 		}
 		runIndex(r, &c)
 		runInc(r, &c)
+		runComplex(r, &c)
+		runSpatial(r, &c)
+		runBool(r, &c)
 		if sum.Cases == before {
 			return fmt.Errorf("line %d: no binding for spec function %q", in.N, c.F)
 		}
